@@ -160,7 +160,7 @@ def run(ctx):
     prows, _, _ = kernel.validate_obs(ctx, "ObsC18", "ObsC18.cfg", obs, tag="badrec")
     ok = [r for r in prows if not r["obs"].get("timeout") and not r["obs"].get("panic") and not r["obs"].get("refrun_failed")]
     for r, why in pipetrace.validate_traces(ctx, ok):
-        ctx.add_failure("trace-rejected", r["vec"]["sig"], r["id"], {"vec": r["vec"], "why": why, "observed": r["obs"]})
+        ctx.add_failure("trace-rejected", r["vec"]["sig"], r["id"], {"vec": r["vec"], "why": why, "observed": r["obs"], "family": "pipe"})
     ctx.evaluations = len(crows) + len(prows)
     for r in crows + prows:
         ctx.nontrivial.add(r["id"])
